@@ -49,6 +49,7 @@ structure CfgAcc where
   clis : List CliConf := []
   srvs : List (String × SrvConf × Nat) := []
   realms : List Realm := []
+  realmVals : List Bytes := []      -- the realm blocks' values as written in the configuration
 
 def findRw (a : CfgAcc) (n : String) : Option Rewrite := if n = "." then none else (a.rws.find? (·.1 = n)).map (·.2)
 
@@ -82,9 +83,10 @@ def parseCfgTok (a : CfgAcc) (tok : String) : Option CfgAcc :=
                                               retryCount := (← rc.toNat?), retryInterval := (← ri.toNat?), addttl := (← addttl.toNat?),
                                               rwIn := findRw a rwin, rwOut := findRw a rwout, loopPrev := (← lp.toNat?), reqMA := reqma = "1" },
                                       (← ss.toNat?))] }
-  | ["R", pat, srv, acc, msg, accresp] => do
+  | ["R", val, srv, acc, msg, accresp] => do
     let msg ← parseOptTok msg
-    pure { a with realms := a.realms ++ [{ pattern := (← ofHex pat), srv := srvIdx a srv, acc := srvIdx a acc, msg := msg, accresp := accresp = "1" }] }
+    let val ← ofHex val
+    pure { a with realmVals := a.realmVals ++ [val], realms := a.realms ++ [{ pattern := Rsp.Realm.realmPattern val, srv := srvIdx a srv, acc := srvIdx a acc, msg := msg, accresp := accresp = "1" }] }
   | _ => none
 
 /-- oracle transcript -/
